@@ -9,7 +9,7 @@ ID = "C07"
 RUN_MODULE = "Model.SingleFlight Run.C07"
 EXPLAIN = "explain"
 RULE = ("2-5 real asyncio tasks calling one function decorated with cache / cache(lock=True) / early / soft (protected by default, long TTLs) "
-        "with key arguments from {0,1}; the wrapped body yields 0-3 times on scheduler gates and then returns a value naming the caller whose "
+        "with key arguments from {0,1} (in half of the cases each caller also passes a distinct argument the key template leaves out); the wrapped body yields 0-3 times on scheduler gates and then returns a value naming the caller whose "
         "call executed it, or raises; each caller first waits on a start gate; the schedule (which parked caller or body runs next, at which "
         "idle point the one designated caller is cancelled, at which steps two parked tasks are released into the same loop iteration) is a "
         "seeded list of choices; thorough tier: EVERY schedule of 3 callers of one key (body yields twice, each choice of cancelled caller) "
@@ -31,7 +31,7 @@ def _rand_case(rng):
     n = rng.randint(2, 5)
     callers = [{"key": rng.choice([0, 0, 0, 1]), "yields": rng.randint(0, 3), "out": rng.choice(["ret", "ret", "raise"])} for _ in range(n)]
     return {"kind": rng.choice(["cache", "cache", "cache_lock", "early", "soft"]), "callers": callers,
-            "cancel": rng.choice([None, 0, 1, n - 1]), "bursts": sorted(rng.sample(range(1, 12), rng.choice([0, 0, 1, 2]))),
+            "extra": rng.random() < 0.5, "cancel": rng.choice([None, 0, 1, n - 1]), "bursts": sorted(rng.sample(range(1, 12), rng.choice([0, 0, 1, 2]))),
             "schedule": [rng.randrange(12) for _ in range(30)]}
 
 
@@ -92,7 +92,7 @@ def _run(case):
             cache.setup("mem://?check_interval=0&size=100000")
             await cache.init()
 
-            async def body(k):
+            async def body(k, trace=None):       # `trace` is not part of the cache key
                 c = who.get()
                 ev.append(["bstart", c, k])
                 try:
@@ -117,7 +117,7 @@ def _run(case):
                     await drv.gate("start")
                     who.set(i)
                     ev.append(["call", i, specs[i]["key"]])
-                    r = await f(specs[i]["key"])
+                    r = await (f(specs[i]["key"], trace=i) if case.get("extra") else f(specs[i]["key"]))
                     ev.append(["got", i, "ret", r])
                 except Boom as e:
                     ev.append(["got", i, "raise", e.args[0]])
